@@ -595,27 +595,41 @@ private theorem rdFromExprs_ro : ∀ (l : List FromExpr) (cte : List String),
 end
 end
 
+private theorem rdOpt_ro (env : Env) (o : Render.Opts) (e : Option Expr) (cte : List String) :
+    rdOpt { env with ro := o } cte e = rdOpt env cte e := by
+  cases e <;> simp only [rdOpt, rdExpr_ro]
+
 /-- **the tables a statement reads and writes according to the specification do not depend on the rendering** (every
-    statement, every nesting depth) -/
+    statement kind, every nesting depth) -/
 theorem spec_ro_irrelevant (env : Env) (o : Render.Opts) (s : Stmt) :
     Spec.reads { env with ro := o } s = Spec.reads env s ∧ Spec.writes { env with ro := o } s = Spec.writes env s := by
   constructor
-  · cases s <;> simp only [Spec.reads, rdQuery_ro, tableName_ro]
+  · cases s with
+    | merge tgt ta src on ups ins =>
+      cases src <;>
+        simp only [Spec.reads, rdQuery_ro, rdExpr_ro, rdExprs_ro, tableName_ro]
+    | _ => simp only [Spec.reads, rdQuery_ro, rdFromExprs_ro, rdExprs_ro, rdOpt_ro, tableName_ro]
   · cases s <;> simp only [Spec.writes, tableName_ro]
 
-/-- statements without a query part (INSERT … VALUES, CREATE TABLE [LIKE], DROP, ALTER … RENAME, RENAME TABLE, no-op and
-    unsupported statements): the walk never renders anything, its whole holder graph is independent of `ro`.
+/-- statements whose analysis never looks at a query: INSERT … VALUES, CREATE TABLE [LIKE], COPY, DROP, ALTER … RENAME,
+    RENAME TABLE, no-op and unsupported statements -/
+def noQueryPart : Stmt → Bool
+  | .insertValues .. | .createTable .. | .createTableLike .. | .copy .. | .drop .. | .alterRename .. | .renameTable ..
+  | .noop .. | .unsupported .. => true
+  | _ => false
+
+/-- statements without a query part: the walk never renders anything, its whole holder graph is independent of `ro`.
     `_partial`: for statements WITH a query part the holder graphs under two renderings differ (subquery identities and
     expression display names follow the text) and are related by a renaming of those nodes that need not be injective (a set
     operator spelled `union` in one subquery and `UNION` in an otherwise equal one makes two nodes under `upper := false`
     and one under `upper := true`); proving that `stmtRead` / `stmtWrite` survive that quotient needs a simulation
     argument through `endOfQueryCleanup` / `expandWildcard` that is not done.  The metamorphic differential covers it. -/
 theorem render_case_irrelevant_partial (env : Env) (o : Render.Opts) (silent : Bool) (s : Stmt)
-    (h : Spec.stmtQuery? s = none) : analyze { env with ro := o } silent s = analyze env silent s := by
-  cases s <;> first | rfl | (simp [Spec.stmtQuery?] at h)
+    (h : noQueryPart s = true) : analyze { env with ro := o } silent s = analyze env silent s := by
+  cases s <;> first | rfl | (simp [noQueryPart] at h)
 
-example : Spec.stmtQuery? (.createTableLike ["s", "t"] ["u"]) = none ∧ Spec.stmtQuery? (.drop false true ["t"]) = none ∧
-    Spec.stmtQuery? (.insertValues ["t"] (some ["a"]) [[.lit "1"]]) = none := ⟨rfl, rfl, rfl⟩
+example : noQueryPart (.createTableLike ["s", "t"] ["u"]) = true ∧ noQueryPart (.drop false true ["t"]) = true ∧
+    noQueryPart (.insertValues ["t"] (some ["a"]) [[.lit "1"]]) = true := ⟨rfl, rfl, rfl⟩
 
 /-- printed names of the tables in a list of nodes -/
 def tableNames (l : List Node) : List String :=
